@@ -237,11 +237,18 @@ func checkSentinelLoop(p *Program, r *Result, fn *ssa.Function, callee string) {
 		}
 		calls = append(calls, c)
 	}
-	if len(calls) != 1 {
-		r.Unk(fn.String(), "sentinel-loop", "", "expected exactly one per-element unwrap call")
+	if len(calls) == 0 || len(calls) > 3 {
+		r.Unk(fn.String(), "sentinel-loop", "", "expected one per-element unwrap call (at most three, each in a loop of its own)")
 		return
 	}
-	call := calls[0]
+	// several calls (a one-stanza fast path in front of the general loop): each is judged in its
+	// own loop
+	for _, call := range calls {
+		checkSentinelLoopAt(p, r, fn, tb, call)
+	}
+}
+
+func checkSentinelLoopAt(p *Program, r *Result, fn *ssa.Function, tb *TB, call ssa.CallInstruction) {
 	var loop *RangeLoop
 	for _, l := range rangeLoops(fn) {
 		if l.inLoop(call.Block()) {
